@@ -95,11 +95,11 @@ PROPS = {
               ["Zap.PackageState.package_state_known", "Zap.PackageState.package_state_classified", "Zap.C11.poolSideCondition_holds", "Zap.C11.C11_pool", "Zap.C11.Lockset.lockSideCondition_holds", "Zap.C11.Lockset.C11_lockset"],
               THEORY_FILES + ["ZapProofs/Props/C11.lean", "ZapProofs/Props/PackageState.lean"],
               partial="atomic steps at the granularity of extracted pool/lock events; Go memory model outside (probed by -race runs)"),
-    "C12": _p([{"gen": "C12"}, {"gen": "C12", "vectors": True, "seed_offset": 13}], ["ZapProofs.Props.C12", "ZapProofs.Props.Codec"],
+    "C12": _p([{"regress": "d16_empty_synonym.script"}, {"gen": "C12"}, {"gen": "C12", "vectors": True, "seed_offset": 13}], ["ZapProofs.Props.C12", "ZapProofs.Props.Codec"],
               ["Zap.C12_spec_meaning", "Zap.C12_synonyms", "Zap.C12_terms", "Zap.C12_unknown", "Zap.C12_not_in_dictionaries",
                "Zap.C12_ids_consistent", "Zap.C12_wellformed", "Zap.Props.Codec.synonym_roundtrip", "Zap.Props.Codec.synonym_order"],
               SYN_FILES),
-    "C13": _p([{"regress": "d4_syn_empty_lhs.script"}, {"gen": "C13"}], ["ZapProofs.Props.C13", "ZapProofs.Props.C06"],
+    "C13": _p([{"regress": "d16_empty_synonym.script"}, {"regress": "d4_syn_empty_lhs.script"}, {"gen": "C13"}], ["ZapProofs.Props.C13", "ZapProofs.Props.C06"],
               ["Zap.C13_merged", "Zap.C13_closed", "Zap.C13_nodup_sorted", "Zap.C13_terms_vanish", "Zap.C13_thesaurus_preserved",
                "Zap.C13_observational", "Zap.C13_id_independent", "Zap.enumerate_spec"],
               SYN_FILES + MERGE_FILES),
